@@ -59,6 +59,11 @@ fn specs() -> Vec<Spec> {
         s("rem-ins-shared-term", vec![(1, A)], false, vec![vec![Remove(1, A)], vec![Insert(2, A)]]),
         s("rem-rem-same-doc", vec![(1, A), (2, A)], false, vec![vec![Remove(1, A)], vec![Remove(1, A)]]),
         s("new-new-full-bucket", full(), false, vec![vec![Insert(1, B)], vec![Insert(2, A)]]),
+        // Last bucket nearly full (60 of 64 bytes): every new term spills into a
+        // freshly allocated bucket while another writer may already use it.
+        s("spill-vs-new-term", vec![(90, F), (91, E)], false, vec![vec![Insert(1, B)], vec![Insert(2, A)]]),
+        s("two-term-spill-vs-new-term", vec![(90, F), (91, E)], false, vec![vec![Insert(1, AB)], vec![Insert(2, C)]]),
+        s("spill-spill-spill-3", vec![(90, F), (91, E)], false, vec![vec![Insert(1, C)], vec![Insert(2, B)], vec![Insert(3, A)]]),
         s("ins-vs-compact", full(), false, vec![vec![Insert(1, B), Insert(2, A)], vec![Compact]]),
         s("rem-vs-compact", full(), false, vec![vec![Remove(90, F), Remove(93, C)], vec![Compact]]),
         s("ins-vs-compact-flushed", full(), true, vec![vec![Insert(1, B)], vec![Compact, Insert(2, B)]]),
